@@ -25,6 +25,7 @@ CODES = {
     11: "more than maxUnavailable pods deleted for updating in one sync",
     12: "a sync younger than reconcileFrequency after the last full sync created or deleted pods",
     13: "a sync that touched pods did not stamp LastFullSync with its own instant",
+    14: "a replica set synced in another role than active keeps a True Active condition (the ramp of a later re-activation would start in the past)",
     20: "harness panic",
 }
 GO_TIMEOUT = 1200
@@ -83,7 +84,31 @@ def generate(rng, tier, stats):
         out.append(c)
     for _ in range(25 if n < 1000 else 300):
         out.append(directed_boundary(rng, stats))
+    for _ in range(8 if n < 1000 else 100):
+        out.append(reactivation_history(rng, stats))
     return out
+
+
+def reactivation_history(rng, stats):
+    """A is rolled out, superseded by B (and synced without a role), and - the template going back while A still owns pods -
+    active again on a cluster that grew meanwhile: its ramp starts at the re-activation, not at its first activation"""
+    import histgen
+    n = rng.choice([4, 6])
+    c = histgen.gen_history(rng, None, n=n, canary=False, length=0)
+    e = [o for o in c["objects"] if o["kind"] == "ExtendedDaemonSet"][0]
+    e["spec"]["strategy"]["rollingUpdate"].update({"maxUnavailable": 1, "maxParallelPodCreation": 10, "slowStartIntervalDuration": "60s",
+                                                   "slowStartAdditiveIncrease": 1})
+    e["spec"]["strategy"]["reconcileFrequency"] = "10s"
+    ED = lambda cmd: histgen.edit("ExtendedDaemonSet", histgen.NS, histgen.EDS, cmd)
+    ops = c["ops"] + histgen.rollout_ops(rng, n + 1)                    # the ramp of A: one more pod per minute
+    ops += [ED("image:img:2")] + histgen.rollout_ops(rng, 2)           # B active, A superseded and synced in no role
+    ops += [ED("image:img:1")]                                          # back to A
+    ops += [K.apply(K.node("n%d" % (n + i), labels={"role": "w", "zone": "a"})) for i in range(rng.choice([2, 3]))]
+    ops += [histgen.rec_eds(), K.sleep(11), histgen.rec_all_ers(rng), K.sleep(11), histgen.rec_all_ers(rng)]
+    ops += histgen.rollout_ops(rng, 2)
+    c["ops"] = ops
+    wprop.bump(stats, "a superseded replica set becomes active again", "yes")
+    return c
 
 
 def directed_boundary(rng, stats):
